@@ -1,9 +1,10 @@
 SPECIFICATION FairSpec
 CONSTANTS
   ByteReps <- WrapBytes
-  MaxLen = 6
+  MaxLen = 5
   TextReps <- WrapText
-  MaxText = 8
+  MaxText = 7
   IndexMode = "uchar"
-INVARIANTS Refines Progress IndexInTable WindowInv
+  ReadMode = "forward"
+INVARIANTS Refines Progress IndexInTable WindowInv ReadsInInput ReadsPrefix
 PROPERTY Terminates
